@@ -201,6 +201,20 @@ func CheckC02(s *Session, st *StepObs) []Finding {
 			}
 		}
 	}
+	if st.Crash != "" {
+		// The process died while handling this message and was restarted: the
+		// reference model restarts from what the reopened stores hold (C08 says
+		// what that may be). Nothing about the decision is judged.
+		return dedup(out)
+	}
+	// Rules about the decision the client took. In a step in which an injected
+	// I/O error fired they are not asserted against a state that lies ON THE
+	// WAY of the sanctioned transition (an interrupted rollback that went no
+	// lower than the fork point of a valid strictly heavier admissible branch
+	// of this message / than the checkpoint a failed checkpoint sends it back
+	// to, plus at most a prefix of that branch): the decision was right, its
+	// execution was cut short by the error. Any other state is judged as ever.
+	var held []Finding
 	switch {
 	case len(D) > 0 && len(A) > 0:
 		wd, wa := ref.Work(D), ref.Work(A)
@@ -209,14 +223,14 @@ func CheckC02(s *Session, st *StepObs) []Finding {
 			if wa.Cmp(wd) == 0 {
 				rel = "equal"
 			}
-			out = append(out, Finding{"c02/reorg-not-heavier/" + rel, fmt.Sprintf("reorg at fork height %d displaced work %v for work %v", f, wd, wa)})
+			held = append(held, Finding{"c02/reorg-not-heavier/" + rel, fmt.Sprintf("reorg at fork height %d displaced work %v for work %v", f, wd, wa)})
 		}
 		if cp := ref.LastCheckpointAtOrBelow(s.G.P, preTip); int32(f) < cp {
 			rel := "tip-above-checkpoint"
 			if cp == preTip {
 				rel = "tip-on-checkpoint"
 			}
-			out = append(out, Finding{"c02/reorg-below-checkpoint/" + rel, fmt.Sprintf("reorg forks at height %d below the reached checkpoint at %d (tip was %d)", f, cp, preTip)})
+			held = append(held, Finding{"c02/reorg-below-checkpoint/" + rel, fmt.Sprintf("reorg forks at height %d below the reached checkpoint at %d (tip was %d)", f, cp, preTip)})
 		}
 	case len(D) > 0 && len(A) == 0:
 		// Sanctioned only as a failed-checkpoint rollback.
@@ -239,13 +253,18 @@ func CheckC02(s *Session, st *StepObs) []Finding {
 			}
 			want := int(ref.LastCheckpointAtOrBelow(s.G.P, cpH-1))
 			if ok && f != want {
-				out = append(out, Finding{"c02/checkpoint-rollback-wrong-height", fmt.Sprintf("failed checkpoint %d rolled back to %d, want previous checkpoint %d", cpH, f, want)})
+				held = append(held, Finding{"c02/checkpoint-rollback-wrong-height", fmt.Sprintf("failed checkpoint %d rolled back to %d, want previous checkpoint %d", cpH, f, want)})
 			}
 		}
 		if !ok && st.Kind != "donepeer" {
-			out = append(out, Finding{"c02/work-decrease/" + kc, fmt.Sprintf("headers %d..%d were discarded without a heavier branch or a failed checkpoint", f+1, preTip)})
+			held = append(held, Finding{"c02/work-decrease/" + kc, fmt.Sprintf("headers %d..%d were discarded without a heavier branch or a failed checkpoint", f+1, preTip)})
 		}
 	}
+
+	if st.Fault != "" && len(held) > 0 && interruptedSanctioned(s, st, f, A) {
+		held = nil
+	}
+	out = append(out, held...)
 
 	if len(st.Hdrs) == 0 || st.Panic != "" {
 		if st.Panic != "" {
@@ -277,9 +296,11 @@ func CheckC02(s *Session, st *StepObs) []Finding {
 		}
 		return dedup(out)
 	}
-	if st.WriteFailed {
-		// The store refused the write (injected fault): nothing is promised
-		// about adoption; safety was judged above.
+	if st.WriteFailed || st.Fault != "" {
+		// The store refused the write (injected fault) / an injected I/O error
+		// fired underneath the stores during this message: nothing is promised
+		// about adoption in this very step; safety was judged above, and every
+		// rule applies again from the next step on.
 		return dedup(out)
 	}
 	// The message must be internally linked to be "fully valid".
@@ -339,6 +360,94 @@ func CheckC02(s *Session, st *StepObs) []Finding {
 		}
 	}
 	return dedup(out)
+}
+
+// interruptedSanctioned reports whether post = pre[:f+1] + A is a state on the
+// way of the transition the reference model makes for this message: see
+// CheckC02.
+func interruptedSanctioned(s *Session, st *StepObs, f int, A []wire.BlockHeader) bool {
+	pre := st.Pre
+	preTip := int32(len(pre) - 1)
+	floor := -1
+	// (a) a failed checkpoint: back to the previous one.
+	var cpH int32 = -1
+	for _, cp := range s.G.P.Checkpoints {
+		if cp.Height > preTip && (cpH == -1 || cp.Height < cpH) {
+			cpH = cp.Height
+		}
+	}
+	if cpH > 0 {
+		for _, nd := range st.Batch {
+			if nd.Height != cpH {
+				continue
+			}
+			for _, cp := range s.G.P.Checkpoints {
+				if cp.Height == cpH && *cp.Hash != nd.Hash {
+					floor = int(ref.LastCheckpointAtOrBelow(s.G.P, cpH-1))
+				}
+			}
+		}
+	}
+	// (b) a fully valid, strictly heavier, admissible branch from a peer the
+	// client listens to.
+	fh, branch := -1, []wire.BlockHeader(nil)
+	func() {
+		if len(st.Hdrs) == 0 || !(st.IsSync || st.Current) {
+			return
+		}
+		for i := 1; i < len(st.Hdrs); i++ {
+			if st.Hdrs[i].PrevBlock != st.Hdrs[i-1].BlockHash() {
+				return
+			}
+		}
+		idx := map[chainhash.Hash]int{}
+		for i, h := range hashesOf(pre) {
+			idx[h] = i
+		}
+		k := 0
+		for k < len(st.Hdrs) {
+			if _, ok := idx[st.Hdrs[k].BlockHash()]; !ok {
+				break
+			}
+			k++
+		}
+		rest := st.Hdrs[k:]
+		if len(rest) == 0 {
+			return
+		}
+		at, known := idx[rest[0].PrevBlock]
+		if !known || at >= int(preTip) {
+			return
+		}
+		if validRun(s, pre[:at+1], rest, st) != len(rest) {
+			return
+		}
+		if cp := ref.LastCheckpointAtOrBelow(s.G.P, preTip); int32(at) < cp {
+			return
+		}
+		if ref.Work(deref(rest)).Cmp(ref.Work(pre[at+1:])) <= 0 {
+			return
+		}
+		fh, branch = at, deref(rest)
+	}()
+	if fh >= 0 && (floor < 0 || fh < floor) {
+		floor = fh
+	}
+	if floor < 0 || f < floor {
+		return false
+	}
+	if len(A) == 0 {
+		return true
+	}
+	if f != fh || len(A) > len(branch) {
+		return false
+	}
+	for i := range A {
+		if A[i] != branch[i] {
+			return false
+		}
+	}
+	return true
 }
 
 func deref(h []*wire.BlockHeader) []wire.BlockHeader {
@@ -416,6 +525,16 @@ func CheckC19(s *Session, st *StepObs, probe bool) []Finding {
 	pre, post := st.Pre, st.Post
 	kc := kindClass(st.Kind)
 	f := commonPrefix(pre, post) - 1
+
+	if st.Crash != "" {
+		// The process died in this step (and was restarted): its subscribers
+		// died with it, the event stream ends there. What the restarted client
+		// offers as backlog must describe the chain it came up with.
+		if probe {
+			out = append(out, probeBacklog(s, st)...)
+		}
+		return dedup(out)
+	}
 
 	// Expected disconnects: every removed block header, highest first.
 	type disc struct {
